@@ -133,7 +133,10 @@ theorem free_rejects (f : FL) (txid id ov : Nat) :
 theorem release_safe (f : FL) (hinv : FLInv f) (hr : ∀ r ∈ f.readers, r < maxU64)
     (q : Nat) (hq : q ∈ (f.releasePending).freeIds) (hnf : q ∉ f.freeIds) :
     ∃ t txp a, (t, txp) ∈ f.pending ∧ (q, a) ∈ txp.ids ∧ ∀ r ∈ f.readers, ¬ (a ≤ r ∧ r < t) := by
-  sorry
+  obtain ⟨_, _, h3, _⟩ := releasePending_rel_safe hinv hr
+  rcases h3 q hq with h | h
+  · exact absurd h hnf
+  · exact h
 
 /-- **Release liveness**: with no registered reader every pending page becomes free
     (transaction ids below `2^64-1`). -/
@@ -141,20 +144,21 @@ theorem release_live (f : FL) (hinv : FLInv f) (hnr : f.readers = [])
     (ht : ∀ p ∈ f.pending, p.1 < maxU64) :
     (f.releasePending).pending = [] ∧
     ∀ q, q ∈ (f.releasePending).freeIds ↔ (q ∈ f.freeIds ∨ q ∈ f.pendingIds) := by
-  sorry
+  exact releasePending_live hinv hnr ht
 
 /-- With readers: everything freed by transactions older than the oldest reader is released. -/
 theorem release_live_below_min (f : FL) (hinv : FLInv f) (m : Nat)
     (hm : ∀ r ∈ f.readers, m ≤ r) (hr : f.readers ≠ []) :
     ∀ p ∈ (f.releasePending).pending, m ≤ p.1 := by
-  sorry
+  exact releasePending_below_min hinv m hm hr
 
 /-- `ReleasePendingPages` neither loses nor duplicates pages, and keeps the invariant. -/
 theorem release_preserves (f : FL) (hinv : FLInv f) :
     FLInv f.releasePending ∧
     ∀ q, (q ∈ (f.releasePending).freeIds ∨ q ∈ (f.releasePending).pendingIds) ↔
          (q ∈ f.freeIds ∨ q ∈ f.pendingIds) := by
-  sorry
+  obtain ⟨h1, h2, _, _⟩ := releasePending_rel_true hinv
+  exact ⟨h1, h2⟩
 
 /-! ## Rollback -/
 
